@@ -28,11 +28,13 @@ import (
 	sdkvesting "github.com/cosmos/cosmos-sdk/x/auth/vesting/types"
 	banktypes "github.com/cosmos/cosmos-sdk/x/bank/types"
 	stakingtypes "github.com/cosmos/cosmos-sdk/x/staking/types"
+	upgradetypes "github.com/cosmos/cosmos-sdk/x/upgrade/types"
 	"github.com/ethereum/go-ethereum/common"
 	"github.com/ethereum/go-ethereum/crypto"
 	"github.com/gogo/protobuf/proto"
 
 	"github.com/haqq-network/haqq/app"
+	stakingprecompile "github.com/haqq-network/haqq/precompiles/staking"
 	"github.com/haqq-network/haqq/utils"
 	coinomicstypes "github.com/haqq-network/haqq/x/coinomics/types"
 	epochstypes "github.com/haqq-network/haqq/x/epochs/types"
@@ -46,6 +48,8 @@ import (
 )
 
 func init() { register("genesis", genesisDriver) }
+
+const hvUpgradeNames = 6
 
 const classK8 = "genesis:epochs-start-height-rewritten"
 
@@ -317,6 +321,42 @@ func (h *hist) apply(op hOp) error {
 		return c.Direct(func(ctx sdk.Context) error {
 			_, err := c.App.Erc20Keeper.ToggleConversion(ctx, d)
 			return err
+		})
+	case "stakingpc":
+		// EOA -> staking precompile: delegate(address,string,uint256)
+		pcAddr := common.HexToAddress("0x0000000000000000000000000000000000000800")
+		var data []byte
+		err := func() (err error) {
+			defer func() {
+				if r := recover(); r != nil {
+					err = fmt.Errorf("panic: %v", r)
+				}
+			}()
+			pc := c.App.EvmKeeper.Precompiles(pcAddr)[pcAddr].(*stakingprecompile.Precompile)
+			vals := c.App.StakingKeeper.GetAllValidators(ctx)
+			data, err = pc.ABI.Pack("delegate", chainAcct(a).Eth, vals[0].OperatorAddress, amtOf(op.Amt, islm(3)))
+			return err
+		}()
+		if err != nil {
+			return err
+		}
+		bz, _, err := c.EthTx(ctx, a, &pcAddr, big.NewInt(0), data, 600_000, 0)
+		if err != nil {
+			return err
+		}
+		res := c.Deliver(bz)
+		h.gasUsed += res.GasUsed
+		if res.Code != 0 || ethFailed(res) {
+			return fmt.Errorf("precompile call failed: code %d %s", res.Code, trunc(res.Log, 200))
+		}
+		return nil
+	case "upgrade":
+		// schedule a software upgrade whose (no-op) handler every instance registers
+		name := fmt.Sprintf("hvnoop%d", op.K%hvUpgradeNames)
+		return c.Direct(func(ctx sdk.Context) error {
+			// due at the very next block: a plan that is pending while its handler is registered makes the
+			// upgrade module panic ("BINARY UPDATED BEFORE TRIGGER"), on every node alike
+			return c.App.UpgradeKeeper.ScheduleUpgrade(ctx, upgradetypes.Plan{Name: name, Height: ctx.BlockHeight() + 1})
 		})
 	case "evmparams":
 		return c.Direct(func(ctx sdk.Context) error {
